@@ -329,11 +329,9 @@ class Cell:
         cands = []
         # fields written outside constructors - through any receiver: a write from outside the class is for the ownership
         # rule to report, not a reason to overlook the field - except what dereferencing itself writes (a cache is not the cell)
-        derefs = {n.attr for m in repo.all_functions(('engine',)) if m.name == 'get_value' for n in own_nodes(m.node)
-                  if isinstance(n, ast.Attribute) and isinstance(n.ctx, ast.Store)}
-        gen_writes = {n.attr for m in repo.all_functions(('engine',)) for n in own_nodes(m.node)
+        gen_writes = {n.attr for m in repo.all_functions(('engine',)) if m.name != 'get_value' for n in own_nodes(m.node)
                       if isinstance(n, ast.Attribute) and isinstance(n.ctx, ast.Store) and
-                      not (m.name == '__init__' and is_name(n.value, m.params[0] if m.params else 'self'))} - derefs
+                      not (m.name == '__init__' and is_name(n.value, m.params[0] if m.params else 'self'))}
         for c in repo.all_classes(('engine',)):
             gv = c.methods.get('get_value')
             if gv is None:
